@@ -21,7 +21,14 @@ def curve(name):
                 _curve_cache[key] = getattr(P, name)()
             else:
                 vs = [np.array([float(x), float(y)]) for x, y in name['poly']]
+                if name.get('closed'):
+                    vs[-1] = vs[0] if name.get('share_first_last') else vs[-1]
                 _curve_cache[key] = P.PiecewisePolygon(vs, closed=bool(name['closed']))
+                if name.get('scribble'):
+                    # the caller reuses its vertex buffers afterwards: the curve must not change with them
+                    for v in vs:
+                        v *= 2.0
+                        v += 7.0
     return _curve_cache[key]
 
 
